@@ -317,6 +317,9 @@ def judge(case, events, outcomes):
                         "but TimeoutError was raised", {"burst": ev[2]})
                 pkt = exc.packet
                 require(pkt is not None, "TimeoutError names no command", {})
+                require(hasattr(pkt, "arg1") and hasattr(pkt, "cmd_rc"),
+                        "TimeoutError does not carry the packet of the "
+                        "command that timed out", {"packet": repr(pkt)[:120]})
                 cid = pkt.arg1
                 tx = sends.get(cid, [])
                 extra = case["bursts"][ev[2]]["cmds"][cid % 100000]
